@@ -10,7 +10,10 @@ use std::pin::Pin;
 use std::task::{Context, Poll};
 
 use tokio::io::{AsyncRead, AsyncWrite, AsyncWriteExt, ReadBuf};
+#[cfg(not(humphrey_verif))]
 use tokio::net::TcpStream;
+#[cfg(humphrey_verif)]
+use humsim::tokio_net::TcpStream;
 
 /// Represents a connection to a remote client or server.
 ///
